@@ -870,6 +870,42 @@ func c03RunBlockEnd(d, t, oids int) explore.Result {
 	return res
 }
 
+// c03RunInterleaved: connection A's message arrives in two pieces (cut inside the 5-byte header or inside the body);
+// between the pieces connection B of the same server sends and is served a complete message of another length. A's
+// message is what A's bytes say, whatever B sent meanwhile.
+func c03RunInterleaved(cut, sizeA, sizeB int) explore.Result {
+	var res explore.Result
+	res.Outcome = "segmentation"
+	res.Key = fmt.Sprint("interleaved", cut, sizeA, sizeB)
+	seen := map[string][]string{}
+	parse := func(ctx context.Context, q string) (wire.PreparedStatements, error) {
+		who := string(wire.ClientParameters(ctx)["user"])
+		seen[who] = append(seen[who], fmt.Sprintf("%d bytes %.12q", len(q), q))
+		return wire.Prepared(wire.NewStatement(func(ctx context.Context, w wire.DataWriter, p []wire.Parameter) error { return w.Complete("OK") })), nil
+	}
+	srv, err := harness.NewServer(parse)
+	if err != nil {
+		res.Engine = err.Error()
+		return res
+	}
+	defer srv.Stop()
+	a, b := srv.Connect(), srv.Connect()
+	a.Step(pgproto.Startup("user", "A"))
+	b.Step(pgproto.Startup("user", "B"))
+	msgA := pgproto.Query("A" + strings.Repeat("a", sizeA-2))
+	msgB := pgproto.Query("B" + strings.Repeat("b", sizeB-2))
+	a.Step(msgA[:cut])
+	outB, _ := b.Step(msgB)
+	outA, _ := a.Step(msgA[cut:])
+	outA2, _ := a.Step(pgproto.Query("A-next"))
+	wantA := []string{fmt.Sprintf("%d bytes %.12q", sizeA-1, "A"+strings.Repeat("a", sizeA-2)), fmt.Sprintf("%d bytes %.12q", 6, "A-next")}
+	if !sameStrings(seen["A"], wantA) || harness.Kinds(outA) != "CZ" || harness.Kinds(outA2) != "CZ" || harness.Kinds(outB) != "CZ" {
+		res.Fail("segmentation-dependent", fmt.Sprintf("connection A's Query (body of %d bytes) arrives cut after %d bytes; between the pieces connection B sends a Query with a body of %d bytes: A's parser saw %v (expected %v), replies A %q %q, B %q", sizeA, cut, sizeB, seen["A"], wantA, harness.Kinds(outA), harness.Kinds(outA2), harness.Kinds(outB)))
+	}
+	res.Trans = []string{"A half received|B served|A completed"}
+	return res
+}
+
 // c03RunReadFault: one transport read fails with a temporary error (a timeout) in the middle of a message that
 // arrives in pieces. The connection may be given up, or the read may be taken up again: what reaches the callbacks
 // is a prefix of what reaches them without the fault - never a text the client did not send.
@@ -1001,6 +1037,55 @@ func c03Enumerate(tier string, emit explore.Emit) {
 					},
 					Run: func() explore.Result { return c03RunBlockEnd(d, t, oids) }})
 			}
+		}
+	}
+	for _, cut := range []int{1, 2, 3, 4, 5, 6, 20} {
+		for _, sizes := range [][2]int{{0x13a, 0x3a}, {0x3a, 0x13a}, {0x1005, 0x21}, {0x21, 0x1005}, {300, 300}, {5000, 4}} {
+			cut, sizes := cut, sizes
+			emit(explore.Case{Family: "segmentation", Size: 600,
+				Desc: func() any {
+					return map[string]any{"connection_A_query_body_bytes": sizes[0], "cut_after_bytes": cut, "connection_B_query_body_bytes_between": sizes[1]}
+				},
+				Run: func() explore.Result { return c03RunInterleaved(cut, sizes[0], sizes[1]) }})
+		}
+	}
+	// parameter value length words with the sign bit set (not -1) and other lengths beyond the message
+	for _, lw := range []uint32{0x80000000, 0x80000001, 0xfffffffe, 0xffff0000, 0x7fffffff, 0x00010000} {
+		for _, behind := range []int{0, 3} {
+			lw, behind := lw, behind
+			emit(explore.Case{Family: "earlier-message", Size: 34,
+				Desc: func() any { return map[string]any{"bind_parameter_value_length_word": lw, "bytes_behind_it": behind} },
+				Run: func() explore.Result {
+					var res explore.Result
+					res.Outcome = "earlier-message"
+					res.Key = fmt.Sprint("value-length", lw, behind)
+					body := pgproto.Cat(pgproto.CStr("p"), pgproto.CStr("s"), []byte{0, 0, 0, 1}, pgproto.Be32(lw), make([]byte, behind))
+					mark := "select $1 mark"
+					head := pgproto.Cat(pgproto.Startup("user", "u"), pgproto.Parse("s", "select $1"))
+					tail := pgproto.Cat(pgproto.Execute("p", 0), pgproto.Sync(), pgproto.Query(mark))
+					with := c04Run(false, c04Feed{Stream: pgproto.Cat(head, pgproto.Msg('B', body), tail)}, false)
+					without := c04Run(false, c04Feed{Stream: pgproto.Cat(head, pgproto.Bind("p", "nosuch", nil, nil, nil), tail)}, false)
+					if with.engine != "" || without.engine != "" {
+						res.Engine = with.engine + without.engine
+						return res
+					}
+					var a []string
+					for i, e := range with.events {
+						if strings.Contains(e, mark) {
+							a = with.events[i:]
+						}
+					}
+					var b []string
+					for i, e := range without.events {
+						if strings.Contains(e, mark) {
+							b = without.events[i:]
+						}
+					}
+					if len(a) > 0 && !sameStrings(a, b) {
+						res.Fail("earlier-message-leaked", fmt.Sprintf("a Bind whose parameter value declares %d bytes (%d follow): the messages behind it were observed as %v, behind a plainly failing Bind as %v", lw, behind, a, b))
+					}
+					return res
+				}})
 		}
 	}
 	for _, seg := range []int{1, 3, 7, 50} {
